@@ -1029,8 +1029,11 @@ def _k_index_vec(family, case, disc):
 @known.finding("C13/multiindex-unique-str-level-nul-truncation")
 def _k_mi_nul(family, case, disc):
     def fn(role, f, segs, fl):
-        return (role == "level" and f.get("unique") and sp.cls_of(f["dtype"]) == "str"
-                and any("\x00" in str(v) for v in fl.get("cases", [])))
+        # (the numpy fixed-width round trip strips trailing NULs: "\x00" and "" - distinct for hypothesis' uniqueness -
+        # both arrive as "", which is all that is left to see in the failure cases)
+        cases = [str(v) for v in fl.get("cases", [])]
+        return (role == "level" and f.get("unique") and sp.cls_of(f["dtype"]) == "str" and bool(cases)
+                and (any("\x00" in v for v in cases) or all(v == "" for v in cases)))
 
     return _all_fails(case, disc, "draw-rejected:SERIES_CONTAINS_DUPLICATES", fn)
 
